@@ -106,6 +106,22 @@ type explorer struct {
 	curKeys  map[uint64]bool
 }
 
+// costBefore: the deviation budget used by the first i choices. Full phase: preemptions (switching away from a
+// thread that could have continued; free at blocking points). Workload-thread phase: delay bounding — EVERY
+// non-default choice costs one, also at blocking points, which keeps the space polynomial in the bound.
+func (x *explorer) costBefore(pts []vsched.Point, i int) int {
+	if !x.workOnly {
+		return preemptionsBefore(pts, i)
+	}
+	n := 0
+	for k := 0; k < i; k++ {
+		if pts[k].Chosen != 0 {
+			n++
+		}
+	}
+	return n
+}
+
 func preemptionsBefore(pts []vsched.Point, i int) int {
 	n := 0
 	for k := 0; k < i; k++ {
@@ -225,7 +241,7 @@ func (x *explorer) onPoint(e *vsched.Exec, key uint64) bool {
 	if x.curKeys[key] {
 		return true
 	}
-	c := preemptionsBefore(e.Points, len(e.Points))
+	c := x.costBefore(e.Points, len(e.Points))
 	if old, ok := x.visited[key]; ok && old <= c {
 		return false
 	}
@@ -291,8 +307,8 @@ func (x *explorer) explore(prefix []int, top bool) {
 	for pass := 0; pass < 2; pass++ {
 		for i := first; i < last; i++ {
 			p := e.Points[i]
-			cost := preemptionsBefore(e.Points, i)
-			if p.CurEnabled && !p.Voluntary {
+			cost := x.costBefore(e.Points, i)
+			if x.workOnly || (p.CurEnabled && !p.Voluntary) {
 				cost++
 			}
 			if cost > x.bound {
@@ -327,15 +343,15 @@ func (x *explorer) explore(prefix []int, top bool) {
 func (x *explorer) run() Stats {
 	full := x.deadline
 	x.st = Stats{Scenario: x.sc.Name, Bound: x.bound, Outcomes: map[string]int{}, Complete: true}
-	if x.onExec == nil { // (callers that consume every execution get the full space only)
+	{
 		// iterative bounding under both default-order policies: every (bound, policy) is completed before the next one
 		// starts; WorkBound = last bound completed under both
 		jobBound := x.bound
 		x.workOnly = true
 		x.deadline = time.Now().Add(time.Until(full) / 2)
 	phaseA:
-		for b := 1; b <= jobBound+1 && x.st.HarnessErr == ""; b++ {
-			for pol := 0; pol <= 1; pol++ {
+		for b := 1; b <= jobBound+2 && x.st.HarnessErr == ""; b++ {
+			for pol := 0; pol <= 2; pol++ {
 				vsched.Policy = pol
 				x.bound, x.visited, x.branch, x.st.Complete = b, map[uint64]int{}, 0, true
 				x.explore(nil, true)
@@ -369,6 +385,14 @@ func ExploreLocal(sc Scenario, bound int, deadline time.Time, onExec func(e *vsc
 	x := &explorer{sc: sc, bound: bound, deadline: deadline, shard: 0, n: 1, visited: map[uint64]int{}, violSeen: map[string]bool{},
 		dir: fmt.Sprintf("%s/local", scratchBase()), onExec: onExec}
 	return x.run()
+}
+
+// TraceOnce runs one schedule (debugging aid) and returns its scheduling trace and observation.
+func TraceOnce(sc Scenario, choices []int, policy int) ([]string, string, *vsched.Exec) {
+	vsched.Policy = policy
+	o := runOnce(sc, scratchBase()+"/trace", choices, nil, true)
+	vsched.Policy = 0
+	return o.e.Trace, o.obs, o.e
 }
 
 func LocalDir() string { return fmt.Sprintf("%s/local", scratchBase()) }
